@@ -762,3 +762,634 @@ Proof.
   destruct (life_inv c earliest s0 (l ++ [fin]) s0 He H0 ltac:(lia) Hn Hok) as [r [Hb [Heq Hfin]]].
   rewrite Heq. unfold run_from. f_equal. eapply Hfin; eauto. apply in_or_app. right. left. reflexivity.
 Qed.
+
+(* ================================================================== explicit positions *)
+(* position in the block of its k-th admitted Ethereum transaction *)
+Fixpoint pos_of (l : list txv) (k : nat) : option nat :=
+  match l with
+  | [] => None
+  | t :: r =>
+      if passed t
+      then match k with O => Some O | S k' => option_map S (pos_of r k') end
+      else option_map S (pos_of r k)
+  end.
+
+Lemma pos_of_spec : forall l k p, pos_of l k = Some p ->
+  nth_error l p = nth_error (filter passed l) k /\ filter passed (firstn p l) = firstn k (filter passed l).
+Proof.
+  induction l as [|x l IH]; intros k p H; cbn in H; [discriminate|].
+  destruct (passed x) eqn:Hp.
+  - destruct k as [|k].
+    + inversion H; subst. cbn. rewrite Hp. split; reflexivity.
+    + destruct (pos_of l k) as [q|] eqn:E; [|discriminate]. inversion H; subst.
+      destruct (IH k q E) as [H1 H2]. cbn. rewrite Hp. cbn. rewrite H2. split; [exact H1|reflexivity].
+  - destruct (pos_of l k) as [q|] eqn:E; [|discriminate]. inversion H; subst.
+    destruct (IH k q E) as [H1 H2]. cbn. rewrite Hp. split; [exact H1|exact H2].
+Qed.
+
+Lemma nth_passed_pos : forall l height ti ei k t,
+  nth_error (filter passed l) k = Some t ->
+  exists p, pos_of l k = Some p /\
+            In (tv_hash t, Res height (ti + Z.of_nat p) (ei + Z.of_nat k) (spec_failed t)) (sent height ti ei l).
+Proof.
+  induction l as [|x l IH]; intros height ti ei k t Hn; cbn in *; [destruct k; discriminate|].
+  destruct (passed x) eqn:Hp.
+  - destruct k as [|k]; cbn in Hn.
+    + inversion Hn; subst. exists 0%nat. rewrite !Z.add_0_r. split; [reflexivity|left; reflexivity].
+    + destruct (IH height (ti + 1) (ei + 1) k t Hn) as [p [Hpos Hin]].
+      exists (S p). rewrite Hpos. split; [reflexivity|]. right.
+      replace (ti + Z.of_nat (S p)) with (ti + 1 + Z.of_nat p) by lia.
+      replace (ei + Z.of_nat (S k)) with (ei + 1 + Z.of_nat k) by lia. exact Hin.
+  - destruct (IH height (ti + 1) ei k t Hn) as [p [Hpos Hin]].
+    exists (S p). rewrite Hpos. split; [reflexivity|].
+    replace (ti + Z.of_nat (S p)) with (ti + 1 + Z.of_nat p) by lia. exact Hin.
+Qed.
+
+Lemma passed_of_nth : forall l k t, nth_error (filter passed l) k = Some t -> passed t = true.
+Proof. intros l k t H. apply nth_error_In in H. apply filter_In in H. apply H. Qed.
+
+(* The i-th Ethereum transaction of block H: both lookups answer with its real position *)
+Theorem entry_of_block_tx : forall c, wf_chain c = true -> NoDup (chain_hashes c) ->
+  forall H i t, block_eth_tx c H i = Some t ->
+  exists b p, block_at c H = Some b /\ pos_of b (Z.to_nat i) = Some p /\ nth_error b p = Some t /\ 0 <= i /\
+    get_by_hash (run c) (tv_hash t) = Some (Res H (Z.of_nat p) i (spec_failed t)) /\
+    get_by_block_index (run c) H i = Some (Res H (Z.of_nat p) i (spec_failed t)).
+Proof.
+  intros c Hw Hnd H i t Ht. pose proof Ht as Ht0. unfold block_eth_tx in Ht.
+  destruct (block_at c H) as [b|] eqn:Hb0; [|discriminate].
+  destruct (0 <=? i) eqn:Hi; [|discriminate]. apply Z.leb_le in Hi. unfold block_eth_txs in Ht.
+  destruct (nth_passed_pos b H 0 0 (Z.to_nat i) t Ht) as [p [Hpos Hin]].
+  rewrite Z.add_0_l in Hin. replace (0 + Z.of_nat (Z.to_nat i)) with i in Hin by lia.
+  pose proof Hb0 as Hb. unfold block_at in Hb. destruct (H <? 1) eqn:EH; [discriminate|]. apply Z.ltb_ge in EH.
+  assert (Hin' : In (tv_hash t, Res H (Z.of_nat p) i (spec_failed t)) (centries sent 1 c)).
+  { eapply nth_block_in_centries; [exact Hb|]. replace (1 + Z.of_nat (Z.to_nat (H - 1))) with H by lia. exact Hin. }
+  assert (Hcp : chain_pos c (tv_hash t) = Some (Res H (Z.of_nat p) i (spec_failed t))).
+  { unfold chain_pos. destruct (chain_pos_from c 1 (tv_hash t)) as [r|] eqn:E.
+    - apply chain_pos_in in E. f_equal. eapply nodup_fst_fun; [|exact E|exact Hin']. rewrite centries_fst. exact Hnd.
+    - exfalso. eapply chain_pos_none; eauto. }
+  exists b, p. split; [reflexivity|]. split; [exact Hpos|].
+  split; [destruct (pos_of_spec b _ _ Hpos) as [H1 _]; rewrite H1; exact Ht|]. split; [exact Hi|].
+  split.
+  - rewrite lookup_hash by assumption. exact Hcp.
+  - rewrite lookup_index by assumption. unfold block_eth_hash. rewrite Ht0. cbn. exact Hcp.
+Qed.
+
+(* everything the index answers is real: an answer names an admitted Ethereum transaction at that very position *)
+Lemma find_pos_sound : forall l height ti ei h r, find_pos height ti ei l h = Some r ->
+  exists t, r_height r = height /\ ti <= r_txidx r /\ ei <= r_ethidx r /\
+    nth_error l (Z.to_nat (r_txidx r - ti)) = Some t /\
+    nth_error (filter passed l) (Z.to_nat (r_ethidx r - ei)) = Some t /\
+    tv_hash t = h /\ r_failed r = spec_failed t.
+Proof.
+  induction l as [|x l IH]; intros height ti ei h r H; cbn in H; [discriminate|].
+  destruct (passed x) eqn:Hp.
+  - destruct (tv_hash x =? h) eqn:E.
+    + apply Z.eqb_eq in E. inversion H; subst. cbn. exists x. rewrite !Z.sub_diag. cbn. rewrite Hp. cbn.
+      repeat split; try lia; reflexivity.
+    + destruct (IH _ _ _ _ _ H) as [t [H1 [H2 [H3 [H4 [H5 [H6 H7]]]]]]].
+      exists t. split; [exact H1|]. split; [lia|]. split; [lia|].
+      replace (Z.to_nat (r_txidx r - ti)) with (S (Z.to_nat (r_txidx r - (ti + 1)))) by lia.
+      replace (Z.to_nat (r_ethidx r - ei)) with (S (Z.to_nat (r_ethidx r - (ei + 1)))) by lia.
+      cbn. rewrite Hp. cbn. repeat split; assumption.
+  - destruct (IH _ _ _ _ _ H) as [t [H1 [H2 [H3 [H4 [H5 [H6 H7]]]]]]].
+    exists t. split; [exact H1|]. split; [lia|]. split; [lia|].
+    replace (Z.to_nat (r_txidx r - ti)) with (S (Z.to_nat (r_txidx r - (ti + 1)))) by lia.
+    cbn. rewrite Hp. repeat split; assumption.
+Qed.
+
+Lemma chain_pos_sound : forall c height h r, chain_pos_from c height h = Some r ->
+  exists b t, height <= r_height r /\ nth_error c (Z.to_nat (r_height r - height)) = Some b /\
+    0 <= r_txidx r /\ 0 <= r_ethidx r /\
+    nth_error b (Z.to_nat (r_txidx r)) = Some t /\ nth_error (filter passed b) (Z.to_nat (r_ethidx r)) = Some t /\
+    tv_hash t = h /\ r_failed r = spec_failed t.
+Proof.
+  induction c as [|b c IH]; intros height h r H; cbn in H; [discriminate|].
+  destruct (find_pos height 0 0 b h) as [x|] eqn:E.
+  - inversion H; subst. destruct (find_pos_sound _ _ _ _ _ _ E) as [t [H1 [H2 [H3 [H4 [H5 [H6 H7]]]]]]].
+    rewrite Z.sub_0_r in H4, H5. exists b, t. rewrite H1, Z.sub_diag. cbn. repeat split; try assumption; lia.
+  - destruct (IH _ _ _ H) as [b' [t [H1 [H2 H3]]]]. exists b', t. split; [lia|].
+    replace (Z.to_nat (r_height r - height)) with (S (Z.to_nat (r_height r - (height + 1)))) by lia.
+    cbn. split; assumption.
+Qed.
+
+Theorem index_sound : forall c, wf_chain c = true -> NoDup (chain_hashes c) ->
+  forall h r, get_by_hash (run c) h = Some r ->
+  exists b t, block_at c (r_height r) = Some b /\ 0 <= r_txidx r /\ nth_error b (Z.to_nat (r_txidx r)) = Some t /\
+    tv_hash t = h /\ passed t = true /\ block_eth_tx c (r_height r) (r_ethidx r) = Some t /\ r_failed r = spec_failed t.
+Proof.
+  intros c Hw Hnd h r H. rewrite lookup_hash in H by assumption. unfold chain_pos in H.
+  destruct (chain_pos_sound _ _ _ _ H) as [b [t [H1 [H2 [H3 [H4 [H5 [H6 [H7 H8]]]]]]]]].
+  assert (Hb : block_at c (r_height r) = Some b).
+  { unfold block_at. destruct (r_height r <? 1) eqn:E; [apply Z.ltb_lt in E; lia|exact H2]. }
+  exists b, t. split; [exact Hb|]. split; [exact H3|]. split; [exact H5|]. split; [exact H7|].
+  split; [eapply passed_of_nth; eauto|]. split; [|exact H8].
+  unfold block_eth_tx. rewrite Hb. destruct (0 <=? r_ethidx r) eqn:E; [exact H6|apply Z.leb_gt in E; lia].
+Qed.
+
+Lemma chain_pos_none_iff : forall c h, chain_pos c h = None <-> ~ In h (chain_hashes c).
+Proof.
+  intros c h. unfold chain_pos. rewrite <- (centries_fst c 1). split.
+  - intros Hn Hin. apply in_map_iff in Hin as [[h' r] [E Hin]]. cbn in E. subst h'.
+    eapply chain_pos_none; eauto.
+  - intros Hn. destruct (chain_pos_from c 1 h) as [r|] eqn:E; [|reflexivity].
+    exfalso. apply Hn. apply chain_pos_in in E. change h with (fst (h, r)). apply in_map, E.
+Qed.
+
+Theorem unknown_hash : forall c, wf_chain c = true -> NoDup (chain_hashes c) ->
+  forall h, get_by_hash (run c) h = None <-> ~ In h (chain_hashes c).
+Proof. intros c Hw Hnd h. rewrite lookup_hash by assumption. apply chain_pos_none_iff. Qed.
+
+(* ================================================================== JSON-RPC views against consensus results *)
+Lemma wf_eth_msg_passed : forall t, wf_tx t = true -> negb (dropped t) && eth_msg t = passed t.
+Proof.
+  intros t Hw. unfold wf_tx in Hw. destruct (passed t) eqn:Hp.
+  - unfold passed, is_eth_tx in Hp. unfold eth_msg.
+    destruct (tv_dec t), (tv_eth t), (tv_ext t), (dropped t); cbn in *; congruence.
+  - apply andb_true_iff in Hw as [_ Hw]. unfold passed, is_eth_tx in Hp. unfold eth_msg in *.
+    destruct (tv_dec t), (tv_eth t), (dropped t); cbn in *; try reflexivity. rewrite Hw in Hp. discriminate.
+Qed.
+
+Lemma eth_msgs_wf : forall b, forallb wf_tx b = true -> eth_msgs b = filter passed b.
+Proof.
+  induction b as [|t b IH]; intros Hw; [reflexivity|].
+  cbn in Hw. apply andb_true_iff in Hw as [Ht Hb]. unfold eth_msgs in *. cbn.
+  rewrite (wf_eth_msg_passed t Ht), (IH Hb). reflexivity.
+Qed.
+
+(* gas that consensus charged to the block for a list of admitted Ethereum transactions *)
+Definition tx_gas (t : txv) : Z := match first_rc (tv_events t) with Some rc => rc_gas rc | None => tv_gas t end.
+Fixpoint gas_sum (l : list txv) : Z := match l with [] => 0 | t :: r => tx_gas t + gas_sum r end.
+
+Lemma prev_gas_wf : forall l, forallb wf_tx l = true -> prev_gas l = gas_sum (filter passed l).
+Proof.
+  induction l as [|t l IH]; intros Hw; [reflexivity|].
+  cbn in Hw. apply andb_true_iff in Hw as [Ht Hl]. cbn [prev_gas filter].
+  rewrite (IH Hl). pose proof (wf_eth_msg_passed t Ht) as E. rewrite andb_comm in E. rewrite E.
+  destruct (passed t); cbn [gas_sum]; unfold tx_gas; lia.
+Qed.
+
+Lemma forallb_firstn : forall (A : Type) (f : A -> bool) n l, forallb f l = true -> forallb f (firstn n l) = true.
+Proof.
+  intros A f n. induction n as [|n IH]; intros [|x l] H; cbn in *; try reflexivity.
+  apply andb_true_iff in H as [H1 H2]. rewrite H1, (IH l H2). reflexivity.
+Qed.
+
+Definition cons_receipt_of (height ei sum : Z) (t : txv) : rview :=
+  match first_rc (tv_events t) with
+  | Some rc => view_of_rc t rc
+  | None => RV 0 (tv_gas t) (sum + tv_gas t) height ei (tv_from t) [] false
+  end.
+
+Lemma cons_receipts_nth : forall l height ei sum k t, nth_error l k = Some t ->
+  nth_error (cons_receipts height ei sum l) k =
+  Some (cons_receipt_of height (ei + Z.of_nat k) (sum + gas_sum (firstn k l)) t).
+Proof.
+  induction l as [|x l IH]; intros height ei sum k t H; [destruct k; discriminate|].
+  destruct k as [|k]; cbn in H.
+  - inversion H; subst. cbn [cons_receipts firstn gas_sum]. rewrite !Z.add_0_r. unfold cons_receipt_of.
+    destruct (first_rc (tv_events t)); reflexivity.
+  - cbn [cons_receipts firstn gas_sum]. unfold tx_gas.
+    destruct (first_rc (tv_events x)) as [rc|]; cbn [nth_error]; rewrite (IH _ _ _ _ _ H); f_equal; f_equal; lia.
+Qed.
+
+Lemma cons_receipts_length : forall l height ei sum, length (cons_receipts height ei sum l) = length l.
+Proof.
+  induction l as [|x l IH]; intros; cbn; [reflexivity|].
+  destruct (first_rc (tv_events x)); cbn; rewrite IH; reflexivity.
+Qed.
+
+Lemma wf_pos_nth : forall l height ei k t rc, wf_pos height ei l = true ->
+  nth_error (filter passed l) k = Some t -> first_rc (tv_events t) = Some rc ->
+  rc_txidx rc = ei + Z.of_nat k /\ rc_block rc = height.
+Proof.
+  induction l as [|x l IH]; intros height ei k t rc Hw Hn Hrc; cbn in *; [destruct k; discriminate|].
+  destruct (passed x) eqn:Hp.
+  - apply andb_true_iff in Hw as [Hx Hl]. destruct k as [|k]; cbn in Hn.
+    + inversion Hn; subst. rewrite Hrc in Hx. apply andb_true_iff in Hx as [H1 H2].
+      apply Z.eqb_eq in H1, H2. lia.
+    + destruct (IH _ _ _ _ _ Hl Hn Hrc) as [H1 H2]. lia.
+  - eapply IH; eauto.
+Qed.
+
+Lemma wf_chain_block : forall c height j b, wf_chain_from height c = true -> nth_error c j = Some b ->
+  wf_block (height + Z.of_nat j) b = true.
+Proof.
+  induction c as [|x c IH]; intros height j b Hw Hn; [destruct j; discriminate|].
+  cbn in Hw. apply andb_true_iff in Hw as [Hx Hc]. destruct j as [|j]; cbn in Hn.
+  - inversion Hn; subst. rewrite Z.add_0_r. exact Hx.
+  - replace (height + Z.of_nat (S j)) with (height + 1 + Z.of_nat j) by lia. eapply IH; eauto.
+Qed.
+
+Lemma wf_block_at : forall c H b, wf_chain c = true -> block_at c H = Some b -> wf_block H b = true.
+Proof.
+  intros c H b Hw Hb. unfold block_at in Hb. destruct (H <? 1) eqn:E; [discriminate|]. apply Z.ltb_ge in E.
+  replace H with (1 + Z.of_nat (Z.to_nat (H - 1))) by lia. eapply wf_chain_block; eauto.
+Qed.
+
+Lemma passed_not_dropped : forall t, passed t = true -> dropped t = false.
+Proof. intros t H. unfold passed in H. destruct (dropped t); [rewrite andb_false_r in H; discriminate|reflexivity]. Qed.
+
+(* eth_getTransactionReceipt = the consensus receipt, at the real position; also for a transaction that failed after
+   admission or exceeded the block gas limit (no tx_receipt event: status 0, whole gas limit, no logs) *)
+Theorem rpc_receipt_consensus : forall c, wf_chain c = true -> NoDup (chain_hashes c) ->
+  forall H i t b, block_at c H = Some b -> block_eth_tx c H i = Some t ->
+  exists v, rpc_receipt c (run c) (tv_hash t) = Some v /\
+            nth_error (block_cons_receipts H b) (Z.to_nat i) = Some v /\
+            rv_height v = H /\ rv_index v = i /\ rv_from v = tv_from t /\
+            (first_rc (tv_events t) = None -> rv_status v = 0 /\ rv_gas v = tv_gas t /\ rv_logs v = [] /\ rv_contract v = false).
+Proof.
+  intros c Hw Hnd H i t b Hb Ht.
+  destruct (entry_of_block_tx c Hw Hnd H i t Ht) as [b' [p [Hb' [Hpos [Hnth [Hi [Hgh _]]]]]]].
+  rewrite Hb in Hb'. inversion Hb'; subst b'. clear Hb'.
+  pose proof (wf_block_at c H b Hw Hb) as Hwb. unfold wf_block in Hwb. apply andb_true_iff in Hwb as [Hwt Hwp].
+  destruct (pos_of_spec b _ _ Hpos) as [Hsame Hpre].
+  assert (HtF : nth_error (filter passed b) (Z.to_nat i) = Some t) by (rewrite <- Hsame; exact Hnth).
+  assert (Hcons : nth_error (block_cons_receipts H b) (Z.to_nat i) =
+                  Some (cons_receipt_of H i (gas_sum (firstn (Z.to_nat i) (filter passed b))) t)).
+  { unfold block_cons_receipts, block_eth_txs. rewrite (cons_receipts_nth _ H 0 0 _ t HtF). f_equal. f_equal; lia. }
+  exists (cons_receipt_of H i (gas_sum (firstn (Z.to_nat i) (filter passed b))) t).
+  split; [|split; [exact Hcons|]].
+  - unfold rpc_receipt. rewrite Hgh. cbn [r_height r_txidx r_ethidx]. rewrite Hb, Nat2Z.id, Hnth.
+    rewrite (passed_not_dropped t (passed_of_nth _ _ _ HtF)).
+    unfold cons_receipt_of. destruct (first_rc (tv_events t)) as [rc|]; [reflexivity|].
+    f_equal. f_equal. rewrite prev_gas_wf by (apply forallb_firstn; exact Hwt). rewrite Hpre.
+    destruct (0 <? i) eqn:E; [lia|]. apply Z.ltb_ge in E. replace (Z.to_nat i) with 0%nat by lia. cbn. lia.
+  - unfold cons_receipt_of. destruct (first_rc (tv_events t)) as [rc|] eqn:Hrc.
+    + destruct (wf_pos_nth _ _ _ _ _ _ Hwp HtF Hrc) as [H1 H2]. cbn. repeat split; try lia; try discriminate.
+    + cbn. repeat split; reflexivity.
+Qed.
+
+Theorem rpc_receipt_unknown : forall c, wf_chain c = true -> NoDup (chain_hashes c) ->
+  forall h, ~ In h (chain_hashes c) -> rpc_receipt c (run c) h = None /\ rpc_tx_by_hash c (run c) h = None.
+Proof.
+  intros c Hw Hnd h Hn. apply (unknown_hash c Hw Hnd) in Hn. unfold rpc_receipt, rpc_tx_by_hash. rewrite Hn. split; reflexivity.
+Qed.
+
+(* eth_getTransactionByHash / ...ByBlockNumberAndIndex *)
+Theorem rpc_tx_views : forall c, wf_chain c = true -> NoDup (chain_hashes c) ->
+  forall H i t, block_eth_tx c H i = Some t ->
+  rpc_tx_by_hash c (run c) (tv_hash t) = Some (TV H i (tv_hash t) (tv_from t)) /\
+  rpc_tx_by_block_index c (run c) H i = Some (TV H i (tv_hash t) (tv_from t)).
+Proof.
+  intros c Hw Hnd H i t Ht.
+  destruct (entry_of_block_tx c Hw Hnd H i t Ht) as [b [p [Hb [Hpos [Hnth [Hi [Hgh Hgi]]]]]]].
+  unfold rpc_tx_by_hash, rpc_tx_by_block_index. rewrite Hgh, Hgi. cbn [r_height r_txidx r_ethidx].
+  rewrite Hb, Nat2Z.id, Hnth. split; reflexivity.
+Qed.
+
+Theorem rpc_tx_by_index_out_of_range : forall c, wf_chain c = true -> NoDup (chain_hashes c) ->
+  forall H i, 0 <= i -> block_eth_tx c H i = None -> rpc_tx_by_block_index c (run c) H i = None.
+Proof.
+  intros c Hw Hnd H i Hi Hn. unfold rpc_tx_by_block_index.
+  destruct (block_at c H) as [b|] eqn:Hb; [|reflexivity].
+  rewrite lookup_index by assumption. unfold block_eth_hash. rewrite Hn. cbn.
+  pose proof (wf_block_at c H b Hw Hb) as Hwb. unfold wf_block in Hwb. apply andb_true_iff in Hwb as [Hwt _].
+  rewrite (eth_msgs_wf b Hwt). unfold block_eth_tx in Hn. rewrite Hb in Hn.
+  destruct (0 <=? i) eqn:E; [|apply Z.leb_gt in E; lia]. unfold block_eth_txs in Hn. rewrite Hn. reflexivity.
+Qed.
+
+(* ------------------------------------------------------------------ block view, count, logs *)
+Definition gc (v : rview) : Z * Z := (rv_gas v, rv_cum v).
+
+Lemma sumfst_app : forall a b, sumfst (a ++ b) = sumfst a + sumfst b.
+Proof. induction a as [|[g x] a IH]; intros b; cbn; [reflexivity|rewrite IH; lia]. Qed.
+
+Lemma block_receipts_spec : forall d b height msgs ei acc,
+  (forall t, In t msgs -> exists x, get_by_hash d (tv_hash t) = Some x /\
+                                    nth_error b (Z.to_nat (r_txidx x)) = Some t /\ dropped t = false) ->
+  block_receipts d b msgs acc = Some (acc ++ map gc (cons_receipts height ei (sumfst acc) msgs)).
+Proof.
+  intros d b height msgs. induction msgs as [|t msgs IH]; intros ei acc Hl; cbn [block_receipts cons_receipts map].
+  - rewrite app_nil_r. reflexivity.
+  - destruct (Hl t (or_introl eq_refl)) as [x [Hg [Hn Hd]]]. rewrite Hg, Hn, Hd.
+    destruct (first_rc (tv_events t)) as [rc|].
+    + rewrite (IH (ei + 1)) by (intros t' Ht'; apply Hl; right; exact Ht').
+      rewrite sumfst_app. cbn [sumfst map]. rewrite <- app_assoc. cbn [app]. unfold gc at 2. cbn [rv_gas rv_cum view_of_rc].
+      rewrite Z.add_0_r. reflexivity.
+    + rewrite (IH (ei + 1)) by (intros t' Ht'; apply Hl; right; exact Ht').
+      rewrite sumfst_app. cbn [sumfst map]. rewrite <- app_assoc. cbn [app]. unfold gc at 2. cbn [rv_gas rv_cum].
+      rewrite Z.add_0_r. do 3 f_equal. f_equal. lia.
+Qed.
+
+(* block gas used according to consensus: the cumulative gas of the last consensus receipt *)
+Definition block_gas_used (height : Z) (b : block) : Z :=
+  match rev (block_cons_receipts height b) with [] => 0 | v :: _ => rv_cum v end.
+
+Lemma in_filter_nth : forall (l : list txv) t, In t (filter passed l) -> exists k, nth_error (filter passed l) k = Some t.
+Proof. intros l t H. apply In_nth_error in H. exact H. Qed.
+
+Theorem rpc_block_consensus : forall c, wf_chain c = true -> NoDup (chain_hashes c) ->
+  forall H b, block_at c H = Some b ->
+  rpc_block c (run c) H = BSome (map tv_hash (block_eth_txs b)) (block_gas_used H b).
+Proof.
+  intros c Hw Hnd H b Hb. unfold rpc_block. rewrite Hb.
+  pose proof (wf_block_at c H b Hw Hb) as Hwb. unfold wf_block in Hwb. apply andb_true_iff in Hwb as [Hwt _].
+  rewrite (eth_msgs_wf b Hwt).
+  rewrite (block_receipts_spec (run c) b H (filter passed b) 0 []).
+  - cbn [app sumfst]. unfold block_gas_used, block_cons_receipts, block_eth_txs.
+    rewrite <- map_rev. destruct (rev (cons_receipts H 0 0 (filter passed b))) as [|v vs]; reflexivity.
+  - intros t Hin. destruct (in_filter_nth b t Hin) as [k Hk].
+    assert (Ht : block_eth_tx c H (Z.of_nat k) = Some t).
+    { unfold block_eth_tx. rewrite Hb. destruct (0 <=? Z.of_nat k) eqn:E; [|apply Z.leb_gt in E; lia].
+      rewrite Nat2Z.id. exact Hk. }
+    destruct (entry_of_block_tx c Hw Hnd H _ t Ht) as [b' [p [Hb' [Hpos [Hnth [_ [Hgh _]]]]]]].
+    rewrite Hb in Hb'. inversion Hb'; subst b'.
+    eexists. split; [exact Hgh|]. cbn [r_txidx]. rewrite Nat2Z.id. split; [exact Hnth|].
+    apply passed_not_dropped. eapply passed_of_nth; eauto.
+Qed.
+
+Theorem rpc_block_unknown : forall c d H, block_at c H = None ->
+  rpc_block c d H = BNone /\ rpc_tx_count c H = None /\ rpc_logs c H = None /\
+  forall i, rpc_tx_by_block_index c d H i = None.
+Proof. intros c d H Hb. unfold rpc_block, rpc_tx_count, rpc_logs, rpc_tx_by_block_index. rewrite Hb. repeat split. Qed.
+
+Theorem rpc_tx_count_consensus : forall c, wf_chain c = true -> forall H b, block_at c H = Some b ->
+  rpc_tx_count c H = Some (Z.of_nat (length (block_eth_txs b))).
+Proof.
+  intros c Hw H b Hb. unfold rpc_tx_count. rewrite Hb.
+  pose proof (wf_block_at c H b Hw Hb) as Hwb. unfold wf_block in Hwb. apply andb_true_iff in Hwb as [Hwt _].
+  rewrite (eth_msgs_wf b Hwt). reflexivity.
+Qed.
+
+(* logs: one group per executed transaction, in block order, with the indices of its consensus receipt *)
+Definition tx_logs (t : txv) : list (list Z) :=
+  match first_rc (tv_events t) with Some rc => [log_indices rc] | None => [] end.
+Definition block_logs (b : block) : list (list Z) := flat_map tx_logs (block_eth_txs b).
+
+Lemma ev_logs_none : forall evs, length (filter is_ev_rc evs) = 0%nat -> ev_logs evs = [] /\ first_rc evs = None.
+Proof.
+  induction evs as [|e evs IH]; intros H; [split; reflexivity|].
+  destruct e as [ok|rc]; cbn in *; [apply IH, H|discriminate].
+Qed.
+
+Lemma ev_logs_one : forall evs, (length (filter is_ev_rc evs) <= 1)%nat ->
+  ev_logs evs = match first_rc evs with Some rc => [log_indices rc] | None => [] end.
+Proof.
+  induction evs as [|e evs IH]; intros H; [reflexivity|].
+  destruct e as [ok|rc]; cbn in *; [apply IH, H|].
+  destruct (ev_logs_none evs ltac:(lia)) as [E _]. rewrite E. reflexivity.
+Qed.
+
+Lemma wf_tx_logs : forall t, wf_tx t = true -> ev_logs (tv_events t) = if passed t then tx_logs t else [].
+Proof.
+  intros t Hw. unfold wf_tx in Hw. unfold tx_logs. destruct (passed t).
+  - apply andb_true_iff in Hw as [_ Hw]. apply ev_logs_one. unfold count_rc in Hw.
+    destruct (tv_code_ok t).
+    + apply andb_true_iff in Hw as [_ Hw]. apply Nat.eqb_eq in Hw. lia.
+    + apply Nat.eqb_eq in Hw. lia.
+  - apply andb_true_iff in Hw as [Hw _]. apply Nat.eqb_eq in Hw. apply ev_logs_none. exact Hw.
+Qed.
+
+Lemma concat_logs_cons : forall l height ei sum,
+  concat (flat_map tx_logs l) = concat (map rv_logs (cons_receipts height ei sum l)).
+Proof.
+  induction l as [|t l IH]; intros height ei sum; [reflexivity|].
+  cbn [flat_map cons_receipts]. unfold tx_logs at 1.
+  destruct (first_rc (tv_events t)) as [rc|]; cbn [map concat app rv_logs view_of_rc];
+    rewrite <- (IH height (ei + 1)); reflexivity.
+Qed.
+
+Theorem rpc_logs_consensus : forall c, wf_chain c = true -> forall H b, block_at c H = Some b ->
+  rpc_logs c H = Some (block_logs b) /\
+  concat (block_logs b) = concat (map rv_logs (block_cons_receipts H b)).
+Proof.
+  intros c Hw H b Hb. unfold rpc_logs. rewrite Hb.
+  pose proof (wf_block_at c H b Hw Hb) as Hwb. unfold wf_block in Hwb. apply andb_true_iff in Hwb as [Hwt _].
+  split.
+  - f_equal. unfold block_logs, block_eth_txs. clear Hb. induction b as [|t b IH]; [reflexivity|].
+    cbn in Hwt. apply andb_true_iff in Hwt as [Ht Hbt]. cbn [flat_map filter].
+    rewrite (wf_tx_logs t Ht), (IH Hbt). destruct (passed t); reflexivity.
+  - unfold block_logs, block_cons_receipts. apply concat_logs_cons.
+Qed.
+
+(* cumulative gas: when consensus receipts carry the running sum (checked by the driver on every block), the
+   cumulative gas of the k-th consensus receipt - hence of the RPC receipt - is the gas of all admitted Ethereum
+   transactions up to and including it, admitted-but-failed ones counted with their gas limit *)
+Lemma cons_receipts_gas : forall l height ei sum k v, nth_error (cons_receipts height ei sum l) k = Some v ->
+  exists t, nth_error l k = Some t /\ rv_gas v = tx_gas t.
+Proof.
+  induction l as [|x l IH]; intros height ei sum k v H; [destruct k; discriminate|].
+  cbn [cons_receipts] in H. unfold tx_gas.
+  destruct (first_rc (tv_events x)) as [rc|] eqn:E; destruct k as [|k]; cbn in H.
+  - inversion H; subst. exists x. rewrite E. split; reflexivity.
+  - apply IH in H. exact H.
+  - inversion H; subst. exists x. rewrite E. split; reflexivity.
+  - apply IH in H. exact H.
+Qed.
+
+Theorem cum_is_running_sum : forall l height ei sum k t v, cum_ok sum l = true ->
+  nth_error l k = Some t -> nth_error (cons_receipts height ei sum l) k = Some v ->
+  rv_cum v = sum + gas_sum (firstn (S k) l).
+Proof.
+  induction l as [|x l IH]; intros height ei sum k t v Hc Hn Hv; [destruct k; discriminate|].
+  cbn [cum_ok] in Hc. cbn [cons_receipts] in Hv. cbn [firstn gas_sum]. unfold tx_gas.
+  destruct (first_rc (tv_events x)) as [rc|] eqn:E.
+  - apply andb_true_iff in Hc as [H1 H2]. apply Z.eqb_eq in H1. destruct k as [|k]; cbn in Hn, Hv.
+    + inversion Hv; subst. cbn. lia.
+    + rewrite (IH _ _ _ _ _ _ H2 Hn Hv). cbn [firstn gas_sum]. lia.
+  - destruct k as [|k]; cbn in Hn, Hv.
+    + inversion Hv; subst. cbn. lia.
+    + rewrite (IH _ _ _ _ _ _ Hc Hn Hv). cbn [firstn gas_sum]. lia.
+Qed.
+
+(* ================================================================== re-indexing; the index as a function of the chain *)
+Lemma db_get_in : forall k d v, db_get k d = Some v -> In (k, v) d.
+Proof.
+  induction d as [|[k' v'] d IH]; intros v H; cbn in H; [discriminate|].
+  destruct (key_eqb k k') eqn:E.
+  - apply key_eqb_eq in E. inversion H; subst. left; reflexivity.
+  - right. apply IH, H.
+Qed.
+
+Lemma in_db_get : forall k v d, In (k, v) d -> exists v', db_get k d = Some v'.
+Proof.
+  induction d as [|[k' v'] d IH]; intros H; [contradiction|]. cbn.
+  destruct (key_eqb k k') eqn:E; [eexists; reflexivity|].
+  destruct H as [H|H]; [inversion H; subst; rewrite key_eqb_refl in E; discriminate|apply IH, H].
+Qed.
+
+Definition present (d : db) (b : batch) : Prop := forall k v, In (k, v) b -> db_get k d = Some v.
+
+Lemma write_present : forall d b, present d b -> db_equiv (db_write d b) d.
+Proof.
+  intros d b Hp k. unfold db_write. rewrite db_get_app.
+  destruct (db_get k (rev b)) as [v|] eqn:E; [|reflexivity].
+  apply db_get_in, in_rev in E. symmetry. apply Hp, E.
+Qed.
+
+Lemma idx_key_run : forall c, wf_chain c = true ->
+  forall H i, db_get (KIdx H i) (run c) = option_map VHash (block_eth_hash c H i).
+Proof.
+  intros c Hw H i. rewrite run_entries. unfold wf_chain in Hw. rewrite (wf_chain_entries c 1 Hw).
+  rewrite idx_chain, block_eth_hash_alt.
+  destruct ((1 <=? H) && (0 <=? i)); [|reflexivity].
+  destruct (nth_error c (Z.to_nat (H - 1))) as [b|]; reflexivity.
+Qed.
+
+Lemma sent_in_inv : forall l height ti ei h r, In (h, r) (sent height ti ei l) ->
+  exists k t, nth_error (filter passed l) k = Some t /\ tv_hash t = h /\ r_height r = height /\ r_ethidx r = ei + Z.of_nat k.
+Proof.
+  induction l as [|x l IH]; intros height ti ei h r Hin; cbn in Hin; [contradiction|].
+  destruct (passed x) eqn:Hp.
+  - destruct Hin as [Hin|Hin].
+    + inversion Hin; subst. exists 0%nat, x. cbn. rewrite Hp. cbn. repeat split; lia.
+    + destruct (IH _ _ _ _ _ Hin) as [k [t [H1 [H2 [H3 H4]]]]]. exists (S k), t. cbn. rewrite Hp. cbn.
+      repeat split; try assumption. lia.
+  - destruct (IH _ _ _ _ _ Hin) as [k [t [H1 [H2 [H3 H4]]]]]. exists k, t. cbn. rewrite Hp. repeat split; assumption.
+Qed.
+
+Lemma in_pers : forall k v es, In (k, v) (flat_map pers es) ->
+  exists h r, In (h, r) es /\ ((k = KHash h /\ v = VRes r) \/ (k = KIdx (r_height r) (r_ethidx r) /\ v = VHash h)).
+Proof.
+  intros k v es H. apply in_flat_map in H as [[h r] [Hin Hp]]. exists h, r. split; [exact Hin|].
+  cbn in Hp. destruct Hp as [Hp|[Hp|[]]]; inversion Hp; subst; [left|right]; split; reflexivity.
+Qed.
+
+Lemma index_block_sent : forall c H b, wf_chain c = true -> block_at c H = Some b ->
+  index_block H b = flat_map pers (sent H 0 0 b).
+Proof.
+  intros c H b Hw Hb. unfold index_block. rewrite index_txs_pent.
+  pose proof (wf_block_at c H b Hw Hb) as Hwb. unfold wf_block in Hwb. apply andb_true_iff in Hwb as [Hwt _].
+  rewrite (wf_pent_sent b H 0 0 Hwt). reflexivity.
+Qed.
+
+(* every write of a block's batch is already in the index of the whole chain, with the same value *)
+Lemma block_present : forall c, wf_chain c = true -> NoDup (chain_hashes c) ->
+  forall H b, block_at c H = Some b -> present (run c) (index_block H b).
+Proof.
+  intros c Hw Hnd H b Hb k v Hin. rewrite (index_block_sent c H b Hw Hb) in Hin.
+  destruct (in_pers _ _ _ Hin) as [h [r [Hs Hkv]]].
+  pose proof Hb as Hb1. unfold block_at in Hb1. destruct (H <? 1) eqn:EH; [discriminate|]. apply Z.ltb_ge in EH.
+  assert (Hc : In (h, r) (centries sent 1 c)).
+  { eapply nth_block_in_centries; [exact Hb1|]. replace (1 + Z.of_nat (Z.to_nat (H - 1))) with H by lia. exact Hs. }
+  destruct Hkv as [[-> ->]|[-> ->]].
+  - rewrite run_entries. unfold wf_chain in Hw. rewrite (wf_chain_entries c 1 Hw).
+    destruct (hash_in_get _ _ _ Hc) as [r' [Hg Hin']]. rewrite Hg. do 2 f_equal.
+    eapply nodup_fst_fun; [|exact Hin'|exact Hc]. rewrite centries_fst. exact Hnd.
+  - destruct (sent_in_inv _ _ _ _ _ _ Hs) as [j [t [H1 [H2 [H3 H4]]]]].
+    rewrite idx_key_run by exact Hw. rewrite H3, H4. unfold block_eth_hash, block_eth_tx. rewrite Hb.
+    destruct (0 <=? 0 + Z.of_nat j) eqn:E; [|apply Z.leb_gt in E; lia].
+    unfold block_eth_txs. replace (Z.to_nat (0 + Z.of_nat j)) with j by lia. rewrite H1. cbn. rewrite H2. reflexivity.
+Qed.
+
+Lemma present_equiv : forall d d' b, db_equiv d d' -> present d b -> present d' b.
+Proof. intros d d' b E Hp k v Hin. rewrite <- E. apply Hp, Hin. Qed.
+
+(* indexing any blocks of the chain again, in any order, any number of times, changes nothing *)
+Theorem reindex_noop : forall c, wf_chain c = true -> NoDup (chain_hashes c) ->
+  forall hs d, db_equiv d (run c) -> db_equiv (feed c d hs) (run c).
+Proof.
+  intros c Hw Hnd hs. unfold feed. induction hs as [|H hs IH]; intros d E; [exact E|].
+  cbn [fold_left]. apply IH. destruct (block_at c H) as [b|] eqn:Hb; [|exact E].
+  eapply db_equiv_trans; [|exact E]. apply write_present.
+  apply (present_equiv (run c)); [intros k; symmetry; apply E|]. apply block_present; assumption.
+Qed.
+
+(* the index is a function of the chain alone: whatever the order and multiplicity in which the blocks were handed
+   to IndexBlock, once every block has been indexed the database answers every key like the in-order run *)
+Definition sub (d d' : db) : Prop := forall k v, db_get k d = Some v -> db_get k d' = Some v.
+
+Lemma feed_sub : forall c, wf_chain c = true -> NoDup (chain_hashes c) ->
+  forall hs d, sub d (run c) -> sub (feed c d hs) (run c).
+Proof.
+  intros c Hw Hnd hs. unfold feed. induction hs as [|H hs IH]; intros d S; [exact S|].
+  cbn [fold_left]. apply IH. destruct (block_at c H) as [b|] eqn:Hb; [|exact S].
+  intros k v Hg. unfold db_write in Hg. rewrite db_get_app in Hg.
+  destruct (db_get k (rev (index_block H b))) as [v'|] eqn:E.
+  - inversion Hg; subst. apply db_get_in, in_rev in E. eapply block_present; eauto.
+  - apply S, Hg.
+Qed.
+
+Lemma feed_keeps : forall c hs d k, db_get k d <> None -> db_get k (feed c d hs) <> None.
+Proof.
+  intros c hs. unfold feed. induction hs as [|H hs IH]; intros d k Hk; [exact Hk|].
+  cbn [fold_left]. apply IH. destruct (block_at c H) as [b|]; [|exact Hk].
+  unfold db_write. rewrite db_get_app. destruct (db_get k (rev (index_block H b))); [discriminate|exact Hk].
+Qed.
+
+Lemma feed_writes : forall c hs d H b k v, In H hs -> block_at c H = Some b -> In (k, v) (index_block H b) ->
+  db_get k (feed c d hs) <> None.
+Proof.
+  intros c hs. induction hs as [|H0 hs IH]; intros d H b k v Hin Hb Hkv; [contradiction|].
+  destruct Hin as [->|Hin].
+  - unfold feed. cbn [fold_left]. apply (feed_keeps c hs). rewrite Hb. unfold db_write. rewrite db_get_app.
+    destruct (in_db_get k v (rev (index_block H b))) as [v' Hv']; [rewrite <- in_rev; exact Hkv|].
+    rewrite Hv'. discriminate.
+  - unfold feed. cbn [fold_left]. eapply (IH _ H b k v); eauto.
+Qed.
+
+Lemma centries_in_block : forall c height e, In e (centries sent height c) ->
+  exists j b, nth_error c j = Some b /\ In e (sent (height + Z.of_nat j) 0 0 b).
+Proof.
+  induction c as [|b c IH]; intros height e Hin; cbn in Hin; [contradiction|].
+  apply in_app_or in Hin as [Hin|Hin].
+  - exists 0%nat, b. rewrite Z.add_0_r. split; [reflexivity|exact Hin].
+  - destruct (IH _ _ Hin) as [j [b' [H1 H2]]]. exists (S j), b'. split; [exact H1|].
+    replace (height + Z.of_nat (S j)) with (height + 1 + Z.of_nat j) by lia. exact H2.
+Qed.
+
+Theorem index_any_order : forall c, wf_chain c = true -> NoDup (chain_hashes c) ->
+  forall hs, (forall H, 1 <= H <= Z.of_nat (length c) -> In H hs) -> db_equiv (feed c [] hs) (run c).
+Proof.
+  intros c Hw Hnd hs Hcov k.
+  assert (S : sub (feed c [] hs) (run c)) by (apply feed_sub; try assumption; intros k' v' H'; discriminate).
+  destruct (db_get k (run c)) as [v|] eqn:E.
+  - assert (Hne : db_get k (feed c [] hs) <> None).
+    { pose proof E as E'. rewrite run_entries in E'. unfold wf_chain in Hw. rewrite (wf_chain_entries c 1 Hw) in E'.
+      apply db_get_in in E'. unfold db_of in E'. rewrite <- in_rev in E'.
+      destruct (in_pers _ _ _ E') as [h [r [Hc Hkv]]].
+      destruct (centries_in_block _ _ _ Hc) as [j [b [Hj Hs]]].
+      assert (Hb : block_at c (1 + Z.of_nat j) = Some b).
+      { replace (1 + Z.of_nat j) with (Z.of_nat j + 1) by lia. rewrite block_at_nat. exact Hj. }
+      assert (Hlen : (j < length c)%nat) by (apply nth_error_Some; congruence).
+      eapply (feed_writes c hs [] (1 + Z.of_nat j) b k v); [apply Hcov; lia|exact Hb|].
+      rewrite (index_block_sent c _ b Hw Hb). apply in_flat_map. exists (h, r). split; [exact Hs|].
+      cbn. destruct Hkv as [[-> ->]|[-> ->]]; [left|right; left]; reflexivity. }
+    destruct (db_get k (feed c [] hs)) as [v'|] eqn:E2; [|congruence].
+    apply S in E2. congruence.
+  - destruct (db_get k (feed c [] hs)) as [v'|] eqn:E2; [|reflexivity]. apply S in E2. congruence.
+Qed.
+
+(* ================================================================== the empty-DB resume rule *)
+(* physically possible service histories: the node's height never decreases and stays within the chain *)
+Fixpoint sched_phys (n node : Z) (l : list incarnation) : bool :=
+  match l with
+  | [] => true
+  | i :: r => (node <=? i_start i) && (i_start i <=? i_end i) && (i_end i <=? n) && sched_phys n (i_end i) r
+  end.
+
+Definition crash_converges_full : Prop := forall c earliest i0 l fin,
+  wf_chain c = true -> NoDup (chain_hashes c) -> earliest <= 1 -> 0 <= i_start i0 ->
+  sched_phys (Z.of_nat (length c)) (i_start i0) (i0 :: l ++ [fin]) = true ->
+  i_end fin = Z.of_nat (length c) -> Z.of_nat (length c) <= Z.of_nat (i_kill fin) ->
+  db_equiv (life c earliest (i0 :: l ++ [fin])) (run_from c (i_start i0)).
+
+(* witness: the indexer is killed while indexing block 1 (the first block with an Ethereum transaction) before its
+   batch is written; at the restart the DB is empty and the node is at height 1: block 1 is never indexed *)
+Definition wit_tx : txv :=
+  Tx true true true 7 21000 9 true [EvEth true; EvRc (Rc 0 1 false 1 21000 21000 None 0 false)].
+Definition wit_chain : chain := [[wit_tx]].
+
+Theorem crash_converges_refuted : ~ crash_converges_full.
+Proof.
+  intros Hf.
+  assert (Hnd : NoDup (chain_hashes wit_chain)) by (cbn; constructor; [intros []|constructor]).
+  specialize (Hf wit_chain 1 (Inc 0 1 0) [] (Inc 1 1 5) eq_refl Hnd ltac:(lia) ltac:(cbn; lia) eq_refl eq_refl ltac:(cbn; lia)).
+  specialize (Hf (KHash 7)). vm_compute in Hf. discriminate.
+Qed.
+
+(* the boolean distinctness test evaluated on every harness chain implies the NoDup hypothesis of the theorems *)
+Lemma nodupb_sound : forall l, nodupb l = true -> NoDup l.
+Proof.
+  induction l as [|x l IH]; intros H; [constructor|].
+  cbn in H. apply andb_true_iff in H as [H1 H2]. constructor; [|apply IH, H2].
+  intros Hin. apply negb_true_iff in H1. assert (E : existsb (Z.eqb x) l = true); [|congruence].
+  apply existsb_exists. exists x. split; [exact Hin|apply Z.eqb_refl].
+Qed.
+
+Lemma chain_hyps_sound : forall c, chain_hyps c = true ->
+  wf_chain c = true /\ cum_chain_ok c = true /\ NoDup (chain_hashes c).
+Proof.
+  intros c H. unfold chain_hyps in H. apply andb_true_iff in H as [H H3]. apply andb_true_iff in H as [H1 H2].
+  split; [exact H1|]. split; [exact H2|]. apply nodupb_sound, H3.
+Qed.
